@@ -351,7 +351,9 @@ class Chart:
                     out.append('%s<log label="never" expr=%s/>' % (p, quoteattr(render_iexpr(ierr(), dm))))
                 elif k == "sendtype":
                     out.append('%s<send event="never" type="http://no.such/type#zz"/>' % p)
-                elif k == "sendtarget":
+                elif k == "sendtarget":      # a session that does not exist: error.communication
+                    out.append('%s<send event="never" target="#_scxml_nosuchsession_zz"/>' % p)
+                elif k == "sendtargetinvalid":   # not a target the SCXML i/o processor understands: error.execution
                     out.append('%s<send event="never" target="!no target!"/>' % p)
                 elif k == "div0":
                     out.append('%s<assign location=%s expr="7 / 0"/>' % (p, quoteattr(op.get("var", "x"))))
